@@ -197,6 +197,11 @@ class Check(PropertyCheck):
     ALPHA = [("data", "c", "61"), ("data", "s", "62"), ("close", "c", 0), ("close", "s", 0), ("hook", None),
              ("hook", "7a7a"), ("connect", 0), ("connect", 1), ("inject", 1, "69"), ("close", "c", 1)]
 
+    def setup(self, tier):
+        # build the (expensive) Options object once, before the worker pool forks
+        global _OPTS
+        if _OPTS is None: _OPTS = make_context("tcp").options
+
     def configs(self):
         for proto in ("tcp", "udp"):
             for flow in (1, 0):
